@@ -67,6 +67,18 @@ fn conc_all() -> Vec<Job> {
     ]
 }
 
+fn fault_all() -> Vec<Job> {
+    use crate::fault::FaultLayer::*;
+    use Entry::*;
+    let mk = |name: &str, entry, layer, quick, thorough| Job { name: name.to_string(), kind: JobKind::Fault { entry, layer }, quick, thorough };
+    vec![
+        mk("fault-storage-http", Http, StorageCalls, 200, 12_000),
+        mk("fault-storage-lib", Lib, StorageCalls, 200, 12_000),
+        mk("fault-vfs-http", Http, Vfs, 160, 10_000),
+        mk("fault-vfs-lib", Lib, Vfs, 160, 10_000),
+    ]
+}
+
 fn wire_all() -> Vec<Job> {
     vec![
         Job { name: "wire-mem".into(), kind: JobKind::Wire { backend: Backend::Memory }, quick: 6000, thorough: 300_000 },
@@ -97,6 +109,7 @@ pub fn jobs_for(prop: &str) -> Vec<Job> {
             v
         }
         "C03" => conc_all(),
+        "C05" => fault_all(),
         "C12" => seq_all(Focus::Urgency, 1),
         "C06" => seq_all(Focus::Payloads, 1),
         "C14" => {
